@@ -342,6 +342,17 @@ Proof.
     specialize (Hlow x Hx). specialize (Hall x Hx). lia.
 Qed.
 
+(* a by-product of the bound used above: the kernel draws an (n+1)-subset and drops its largest member
+   (n = n + 1 at entry, the loop runs while n > 1), so it can never select the last position N - 1 —
+   the sample is not uniform.  Uniformity is not part of C19; recorded because the proof exposes it. *)
+Theorem algD_never_last_proof n N evs arr :
+  1 <= n -> algD n N evs = Some arr -> Forall (fun x => x < N - 1) arr.
+Proof.
+  intros Hn. unfold algD. destruct (Z.ltb_spec n 1); [lia|]. intros H'.
+  apply algD_loop_spec in H'. destruct H' as [_ [_ Hall]].
+  eapply Forall_impl; [|exact Hall]. simpl. intros; lia.
+Qed.
+
 (* termination is only almost sure; what holds for every stream: one selection step returns as soon
    as an accepting event occurs ... *)
 Definition accepting (qu1 : Z) (e : ev) : bool :=
